@@ -62,5 +62,11 @@ theorem ofFn_holds (k : Kind) (r c : Nat) (f : Nat → Nat → α) : (Store.ofFn
         rw [Nat.mul_comm, Nat.mul_add_mod, Nat.mod_eq_of_lt hj]
       simp [Store.ofFn, Store.get, vget, hlt, hd, hm]
 
+/-- an operand of any class with both dimensions positive: well formed, with exactly these dimensions -/
+theorem ofFn_dims (k : Kind) {r c : Nat} (hr : 0 < r) (hc : 0 < c) (f : Nat → Nat → α) :
+    (Store.ofFn k r c f).WF ∧ (Store.ofFn k r c f).nrows = r ∧ (Store.ofFn k r c f).ncols = c := by
+  have h := ofFn_holds k r c f
+  exact ⟨h.1, (h.dims_pos hr hc).1, (h.dims_pos hr hc).2⟩
+
 end OfFn
 end Bpp.Mx
